@@ -6,3 +6,4 @@ CONSTANTS
   AcrhEcho <- AcrhEchoUnused
 INVARIANT Final
 CHECK_DEADLOCK FALSE
+VIEW TraceView
